@@ -1,6 +1,6 @@
 import BridgeVerif.Translated.PbnWriterLemmasA
 /-! Translated PBN writer = model: `write_tag_pair`, `write_header`, the constructor; `str(int)` of the interpreter is the
-model's `intRepr` below 10^40; bounds on the lengths of the texts `write_board_result` writes -/
+model's `intRepr` (for every integer); bounds on the lengths of the texts `write_board_result` writes -/
 namespace Bridge.Translated
 open Bridge Bridge.Py Bridge.Generated.PyCore
 
@@ -123,22 +123,29 @@ theorem pw_natDigits_eq (f : Nat) : ∀ (n g : Nat) (acc : List Char), n < 10 ^ 
         rw [ih (n / 10) g _ (by rw [Nat.pow_succ] at h; omega) (by omega), h48]
         simp only [List.append_assoc, List.cons_append, List.nil_append]
 
-theorem pw_natRepr_eq (n : Nat) (h : n < 10 ^ 40) : natRepr n = Py.natDigits 40 n := by
-  rw [natRepr, pw_natDigits_eq 40 n (n + 1) [] h (by omega), List.append_nil]
+theorem pw_lt_ten_pow_succ (n : Nat) : n < 10 ^ (n + 1) :=
+  Nat.lt_of_lt_of_le (Nat.lt_pow_self (by decide : 1 < 10)) (Nat.pow_le_pow_right (by decide) (Nat.le_succ n))
 
-/-- `str(n)` in the interpreter prints 40 digits at most: below 10^40 it is the model's `intRepr` -/
-theorem pw_intStr_eq (n : Int) (h : n.natAbs < 10 ^ 40) : intStr n = intRepr n := by
+/-- the model's digits are the interpreter's, at any number `f` of digits that holds `n` -/
+theorem pw_natRepr_eq_of_lt (f n : Nat) (h : n < 10 ^ f) : natRepr n = Py.natDigits f n := by
+  rw [natRepr, pw_natDigits_eq f n (n + 1) [] h (by omega), List.append_nil]
+
+theorem pw_natRepr_eq (n : Nat) : natRepr n = Py.natDigits (n + 1) n :=
+  pw_natRepr_eq_of_lt (n + 1) n (pw_lt_ten_pow_succ n)
+
+/-- `str(n)` in the interpreter is the model's `intRepr`, for every integer -/
+theorem pw_intStr_eq (n : Int) : intStr n = intRepr n := by
   cases n with
   | ofNat m =>
     have : ¬ (Int.ofNat m < 0) := by simp
     have e : (Int.ofNat m).natAbs = m := rfl
-    simp only [intStr, this, if_false, intRepr, e] at h ⊢
-    rw [pw_natRepr_eq m h]
+    simp only [intStr, this, if_false, intRepr, e]
+    rw [pw_natRepr_eq m]
   | negSucc m =>
     have : Int.negSucc m < 0 := Int.negSucc_lt_zero m
     have e : (Int.negSucc m).natAbs = m + 1 := rfl
-    simp only [intStr, this, if_true, intRepr, e] at h ⊢
-    rw [pw_natRepr_eq (m + 1) h]
+    simp only [intStr, this, if_true, intRepr, e]
+    rw [pw_natRepr_eq (m + 1)]
 
 theorem pw_pyDigits_len (f n : Nat) : (Py.natDigits f n).length ≤ f + 1 := by
   induction f generalizing n with
@@ -149,12 +156,21 @@ theorem pw_pyDigits_len (f n : Nat) : (Py.natDigits f n).length ≤ f + 1 := by
     · simp
     · have := ih (n / 10); simp only [List.length_append, List.length_singleton]; omega
 
-theorem pw_intStr_len (n : Int) : (intStr n).length ≤ 42 := by
-  have := pw_pyDigits_len 40 n.natAbs
-  simp only [intStr]
-  split
-  · simp only [List.length_cons]; omega
-  · omega
+/-- a number below `10 ^ f` prints in `f + 2` characters at most (the sign, and `0` when `f = 0`) -/
+theorem pw_intRepr_len (f : Nat) (n : Int) (h : n.natAbs < 10 ^ f) : (intRepr n).length ≤ f + 2 := by
+  cases n with
+  | ofNat m =>
+    have e : (Int.ofNat m).natAbs = m := rfl
+    rw [e] at h
+    have := pw_pyDigits_len f m
+    simp only [intRepr, pw_natRepr_eq_of_lt f m h]
+    omega
+  | negSucc m =>
+    have e : (Int.negSucc m).natAbs = m + 1 := rfl
+    rw [e] at h
+    have := pw_pyDigits_len f (m + 1)
+    simp only [intRepr, pw_natRepr_eq_of_lt f (m + 1) h, List.length_cons]
+    omega
 
 /-! ## lengths of the texts -/
 theorem pw_natDigits_len (g : Nat) : ∀ (n : Nat) (acc : List Char),
